@@ -12,103 +12,6 @@ import (
 	"verif/mc"
 )
 
-// Oracle: the NCBI genetic codes written as differences from the standard code
-// (table 1), plus each table's start and stop codon sets as NCBI's gc.prt gives
-// them. Deliberately not the 64-letter strings, so that a transcription slip in
-// one representation cannot cancel in the other.
-
-var ncbiStandard = func() map[string]byte {
-	m := map[string]byte{}
-	set := func(aa byte, codons ...string) {
-		for _, c := range codons {
-			m[c] = aa
-		}
-	}
-	four := func(aa byte, p string) { set(aa, p+"T", p+"C", p+"A", p+"G") }
-	set('F', "TTT", "TTC")
-	set('L', "TTA", "TTG")
-	four('L', "CT")
-	set('I', "ATT", "ATC", "ATA")
-	set('M', "ATG")
-	four('V', "GT")
-	four('S', "TC")
-	set('S', "AGT", "AGC")
-	four('P', "CC")
-	four('T', "AC")
-	four('A', "GC")
-	set('Y', "TAT", "TAC")
-	set('*', "TAA", "TAG", "TGA")
-	set('H', "CAT", "CAC")
-	set('Q', "CAA", "CAG")
-	set('N', "AAT", "AAC")
-	set('K', "AAA", "AAG")
-	set('D', "GAT", "GAC")
-	set('E', "GAA", "GAG")
-	set('C', "TGT", "TGC")
-	set('W', "TGG")
-	four('R', "CG")
-	set('R', "AGA", "AGG")
-	four('G', "GG")
-	if len(m) != 64 {
-		panic("standard code incomplete")
-	}
-	return m
-}()
-
-type ncbiCode struct {
-	diff   string // "CODON=X CODON=Y"
-	starts string
-	stops  string
-}
-
-var ncbiCodes = map[int]ncbiCode{
-	1:  {"", "TTG CTG ATG", "TAA TAG TGA"},
-	2:  {"AGA=* AGG=* ATA=M TGA=W", "ATT ATC ATA ATG GTG", "TAA TAG AGA AGG"},
-	3:  {"ATA=M CTT=T CTC=T CTA=T CTG=T TGA=W", "ATA ATG GTG", "TAA TAG"},
-	4:  {"TGA=W", "TTA TTG CTG ATT ATC ATA ATG GTG", "TAA TAG"},
-	5:  {"AGA=S AGG=S ATA=M TGA=W", "TTG ATT ATC ATA ATG GTG", "TAA TAG"},
-	6:  {"TAA=Q TAG=Q", "ATG", "TGA"},
-	9:  {"AAA=N AGA=S AGG=S TGA=W", "ATG GTG", "TAA TAG"},
-	10: {"TGA=C", "ATG", "TAA TAG"},
-	11: {"", "TTG CTG ATT ATC ATA ATG GTG", "TAA TAG TGA"},
-	12: {"CTG=S", "CTG ATG", "TAA TAG TGA"},
-	13: {"AGA=G AGG=G ATA=M TGA=W", "TTG ATA ATG GTG", "TAA TAG"},
-	14: {"AAA=N AGA=S AGG=S TAA=Y TGA=W", "ATG", "TAG"},
-	16: {"TAG=L", "ATG", "TAA TGA"},
-	21: {"TGA=W ATA=M AGA=S AGG=S AAA=N", "ATG GTG", "TAA TAG"},
-	22: {"TCA=* TAG=L", "ATG", "TCA TAA TGA"},
-	23: {"TTA=*", "ATT ATG GTG", "TTA TAA TAG TGA"},
-	24: {"AGA=S AGG=K TGA=W", "TTG CTG ATG GTG", "TAA TAG"},
-	25: {"TGA=G", "TTG ATG GTG", "TAA TAG"},
-	26: {"CTG=A", "CTG ATG", "TAA TAG TGA"},
-	27: {"TAA=Q TAG=Q TGA=W", "ATG", "TGA"},
-	28: {"TAA=Q TAG=Q TGA=W", "ATG", "TAA TAG TGA"},
-	29: {"TAA=Y TAG=Y", "ATG", "TGA"},
-	30: {"TAA=E TAG=E", "ATG", "TGA"},
-	31: {"TGA=W TAG=E TAA=E", "ATG", "TAA TAG"},
-	33: {"TAA=Y TGA=W AGA=S AGG=K", "TTG CTG ATG GTG", "TAG"},
-}
-
-func ncbiTable(id int) map[string]byte {
-	m := map[string]byte{}
-	for k, v := range ncbiStandard {
-		m[k] = v
-	}
-	for _, d := range strings.Fields(ncbiCodes[id].diff) {
-		m[d[:3]] = d[4]
-	}
-	return m
-}
-
-func ncbiTranslate(tbl map[string]byte, dna string) string {
-	var b strings.Builder
-	u := strings.ToUpper(dna)
-	for i := 0; i+3 <= len(u); i += 3 {
-		b.WriteByte(tbl[u[i:i+3]])
-	}
-	return b.String()
-}
-
 func setEq(got []string, want string) (bool, string, string) {
 	g := append([]string(nil), got...)
 	sort.Strings(g)
